@@ -157,6 +157,12 @@ func (t *c05Tokens) hop() c05HOp {
 		op.keys = t.ids()
 		return c05HOp{w: w, c05Op: op}
 	}
+	if kind == "CS" || kind == "US" { // CS|US <lv> sd x <pair> <n> <id>..  (c05_strategy.go)
+		op := c05Op{kind: kind, sd: t.side(), a: t.id()}
+		op.count = int64(t.int())
+		op.keys = t.ids()
+		return c05HOp{w: w, c05Op: op}
+	}
 	// re-read "<kind> <sd> .." with the parser of the flat operations
 	t.i--
 	t.t[t.i] = kind
@@ -174,8 +180,9 @@ type c05HWorld struct {
 
 func c05HNewChild(parent *c05Store, name string, ext bool) *c05Store {
 	typ := parent.typ
+	strat := &c05Strategy{typ: typ, parent: parent.strat}
 	def := boltz.StoreDefinition[*c05Ent]{
-		EntityStrategy: c05Strategy{typ: typ},
+		EntityStrategy: strat,
 		EntityNotFoundF: func(id string) error {
 			return boltz.NewNotFoundError(typ, "id", id)
 		},
@@ -183,7 +190,7 @@ func c05HNewChild(parent *c05Store, name string, ext bool) *c05Store {
 		Parent:       parent,
 		ParentMapper: func(e boltz.Entity) boltz.Entity { return e },
 	}
-	st := &c05Store{BaseStore: boltz.NewBaseStore(def), typ: typ, basePath: parent.basePath, sub: []string{name}}
+	st := &c05Store{BaseStore: boltz.NewBaseStore(def), typ: typ, basePath: parent.basePath, sub: []string{name}, strat: strat}
 	if ext {
 		st.Extended()
 	}
@@ -223,6 +230,8 @@ func c05HNewWorld(db boltz.Db, base string, topo c05HTopo, uA, uB []string) *c05
 		if topo.hasPlain(p) {
 			a.links = a.AddLinkCollection(a.linkSym, b.linkSym)
 			b.links = b.AddLinkCollection(b.linkSym, a.linkSym)
+			la.strat.fields = append(la.strat.fields, a.field)
+			lb.strat.fields = append(lb.strat.fields, b.field)
 		}
 		if topo.hasRc(p) {
 			a.rcLinks = a.AddRefCountedLinkCollection(a.rcSym, b.rcSym)
@@ -254,6 +263,8 @@ func (w *c05HWorld) apply(ctx boltz.MutateContext, op c05HOp) (err error) {
 			return fmt.Errorf("no store of level %d", op.w)
 		}
 		return w.level[op.sd][op.w].DeleteWhere(ctx, c05HWhereQuery(op.c05Op))
+	case "CS", "US":
+		return w.c05SApply(ctx, op)
 	}
 	if op.w < 0 || op.w >= len(w.cell) {
 		return fmt.Errorf("no pair %d", op.w)
@@ -437,6 +448,7 @@ var c05HKindTopos = []c05HTopo{
 type c05HGen struct {
 	r      *rng
 	kinded bool // K cases: pair kinds, DeleteWhere
+	strat  bool // creates / updates whose entity strategy writes a link field (c05_strategy.go)
 	topo   c05HTopo
 	uni    [2][]string
 	pres   [2][]map[string]bool // per side, per level
@@ -498,6 +510,8 @@ func (g *c05HGen) fails(op c05HOp, pres [2][]map[string]bool) bool {
 	switch op.kind {
 	case "C":
 		return pres[op.sd][0][op.a]
+	case "CS", "US":
+		return g.stratFails(op, pres)
 	case "D":
 		return !pres[op.sd][0][op.a] || g.extBlocked(pres, op.sd, op.a)
 	case "DW":
@@ -543,6 +557,11 @@ func (g *c05HGen) pickLevel(sd int) int {
 
 func (g *c05HGen) genOp(pres [2][]map[string]bool) c05HOp {
 	r := g.r
+	if g.strat && r.chance(30) {
+		if op, ok := g.genStratOp(pres); ok {
+			return op
+		}
+	}
 	w := r.intn(100)
 	switch {
 	case w < 10:
@@ -737,7 +756,12 @@ func (g *c05HGen) genCase(i int) (string, [][]c05HOp) {
 		allowFail := r.chance(18)
 		pres := c05HCopyPres(g.pres)
 		var script []c05HOp
-		if r.chance(18) {
+		if g.strat && r.chance(22) {
+			if script = g.stratScenario(pres); len(script) > 0 {
+				n = len(script)
+				g.stats["strategy_scenario_tx"]++
+			}
+		} else if r.chance(18) {
 			if script = g.scenario(pres); len(script) > 0 {
 				n = len(script)
 				g.stats["hier_scenario_tx"]++
@@ -764,7 +788,7 @@ func (g *c05HGen) genCase(i int) (string, [][]c05HOp) {
 				break
 			}
 			switch op.kind {
-			case "C":
+			case "C", "CS":
 				pres[op.sd][0][op.a] = true
 				pres[op.sd][op.w][op.a] = true
 			case "D":
